@@ -1108,3 +1108,53 @@ func c20SetsFromTheGraph(c *Ctx, rule string, fns []*ssa.Function) {
 	}
 	c.R.Check(len(bad) == 0, rule, "Analyze: what is filed in the accounting sets comes from nodes and branches", "tools/analysis.go", fmt.Sprintf("%d stores into sets of names; no key derives from a field of Spec other than Nodes", n), strings.Join(bad, "; ")+": a name that no branch targets is reported among the branch targets (an orphan disappears, a missing target appears)")
 }
+
+// c18EngineRemovesNothing: between what an action or guard returned and the
+// state that continues, the engine removes no binding.  Nothing in package core
+// that Step or Walk reach deletes from a bindings map or calls the matcher's
+// removing helpers (Bindings.Remove, DeleteExcept).
+func c18EngineRemovesNothing(c *Ctx, rule string) {
+	step := c.P.Func("core", "Spec", "Step")
+	walk := c.P.Func("core", "Spec", "Walk")
+	if step == nil || walk == nil {
+		c.R.Break(rule + ": core Step / Walk not found")
+		return
+	}
+	seen := map[*ssa.Function]bool{}
+	var fns []*ssa.Function
+	for _, root := range []*ssa.Function{step, walk} {
+		for _, f := range append([]*ssa.Function{root}, pkgClosure(root)...) {
+			if prog.PkgOf(f) == "core" && !seen[f] {
+				seen[f] = true
+				fns = append(fns, f)
+			}
+		}
+	}
+	var bad []string
+	for _, f := range fns {
+		ssau.Instrs(f, func(in ssa.Instruction) {
+			ci, ok := in.(ssa.CallInstruction)
+			if !ok {
+				return
+			}
+			if b, isB := ci.Common().Value.(*ssa.Builtin); isB && b.Name() == "delete" {
+				t := ci.Common().Args[0].Type()
+				if isBindingsT(t) || types.TypeString(t.Underlying(), nil) == "map[string]interface{}" {
+					bad = append(bad, fmt.Sprintf("%s deletes from a bindings map (%s)", fname(f), c.pos(in)))
+				}
+				return
+			}
+			if sc := ci.Common().StaticCallee(); sc != nil && prog.PkgOf(sc) == "match" && (sc.Name() == "Remove" || sc.Name() == "DeleteExcept") {
+				bad = append(bad, fmt.Sprintf("%s calls Bindings.%s (%s)", fname(f), sc.Name(), c.pos(in)))
+			}
+		})
+	}
+	if len(fns) < 5 {
+		c.R.Break(fmt.Sprintf("%s: closure of Step/Walk in core has only %d functions", rule, len(fns)))
+		return
+	}
+	if len(bad) > 2 {
+		bad = bad[:2]
+	}
+	c.R.Check(len(bad) == 0, rule, "core: the engine removes no binding", "core/step.go", fmt.Sprintf("%d functions of core reached from Step and Walk: no delete on a bindings map, no Bindings.Remove/DeleteExcept", len(fns)), strings.Join(bad, "; ")+": a binding an action or guard returned (or a permanent binding whose value is null) is gone from the state that continues")
+}
